@@ -214,16 +214,28 @@ Definition split_recv (h : hist) (assign : list nat) (i : nat) : hist :=
 (** Speed (progress bar) and LimitMemory forward every batch unchanged, in arrival order. *)
 Definition forward (h : hist) : hist := h.
 
-(** Load: every record of every batch appended IN ARRIVAL ORDER (no SortBatches: the callers sort first);
+(** Load (since the fix "Load returns the sequences in the order of the batch numbers"): every batch is
+    collected, the batches are sorted by number with a STABLE sort (sort.SliceStable: batches with the same
+    number keep their arrival order; a gap in the numbering loses nothing, unlike SortBatches), then every
+    record of every batch is appended; [load_v0] is the code before that fix (arrival order).
     CompleteFileIterator: the result of Load as ONE batch numbered 0, no batch at all for no record. *)
-Definition load (h : hist) : list A := flatten h.
+Fixpoint ins_batch (b : batch) (l : hist) : hist :=
+  match l with
+  | [] => [b]
+  | y :: l' => if Nat.leb (fst b) (fst y) then b :: l else y :: ins_batch b l'
+  end.
+Definition stable_sort_batches (h : hist) : hist := fold_right ins_batch [] h.
+Definition load (h : hist) : list A := flatten (stable_sort_batches h).
+Definition load_v0 (h : hist) : list A := flatten h.
 Definition completefile (h : hist) : hist :=
   match load h with [] => [] | l => [(0, l)] end.
 
 (** MakeIConditionalWorker (SeqToSliceConditionalWorker): the worker is applied to the records that
-    satisfy the condition; the records that do NOT satisfy it are NOT forwarded (as written in
-    pkg/obiseq/worker.go: no else branch). *)
-Definition cond_worker (c : A -> bool) (f : A -> list A) (x : A) : list A := if c x then f x else [].
+    satisfy the condition; the records that do NOT satisfy it are passed through unchanged, at their place
+    (since the fix "a conditional worker passes the sequences that do not satisfy the condition through
+    unchanged"; [cond_worker_v0] is the code before: they were dropped). *)
+Definition cond_worker (c : A -> bool) (f : A -> list A) (x : A) : list A := if c x then f x else [x].
+Definition cond_worker_v0 (c : A -> bool) (f : A -> list A) (x : A) : list A := if c x then f x else [].
 
 (** paired streams: every record carries its mate ([mate]); FilterOn tests the forward record only,
     FilterAnd requires the predicate on both mates; the pair stays together (the mate is reached
@@ -317,7 +329,7 @@ Arguments rebatch_step {A}. Arguments rb_batch {A}. Arguments rebatch_loop {A}.
 Arguments mkp {A}. Arguments p_queue {A}. Arguments p_infl {A}. Arguments p_emit {A}.
 Arguments pstep {A}. Arguments prun {A}. Arguments pinit {A}. Arguments pidle {A}.
 Arguments remove1 {X}. Arguments perm_eqb {X}. Arguments list_eqb {X}. Arguments subseqb {X}.
-Arguments split_recv {A}. Arguments forward {A}. Arguments load {A}. Arguments completefile {A}. Arguments cond_worker {A}.
+Arguments split_recv {A}. Arguments forward {A}. Arguments ins_batch {A}. Arguments stable_sort_batches {A}. Arguments load_v0 {A}. Arguments cond_worker_v0 {A}. Arguments load {A}. Arguments completefile {A}. Arguments cond_worker {A}.
 Arguments filterand_paired {A}. Arguments pairedwith {A}. Arguments distribute_rebatch {A}.
 
 Section Frag.
